@@ -106,3 +106,20 @@ package reg
 //@   in ~/scheme/reg
 //@   where referrer-cache: recv == caller.reg.cacheRL
 //@   requires key-is-digest-only-ref: key.Tag == ""
+
+// ---- C10: concurrent updates of one subject through one client ----
+// The read-modify-write of the client-managed fallback tag (read the tag's index, add or delete
+// an entry, push the index or delete the tag) runs under reg.muRefTag from the read to the write,
+// in referrerPut and in referrerDelete alike, so two updates cannot lose each other's entry.
+//@ callsite (*Reg).referrerListByTag(ctx, r)
+//@   prop C10
+//@   name referrerListByTag/update
+//@   in ~/scheme/reg
+//@   infunc \)\.referrer(Put|Delete)$
+//@   requires fallback-tag-lock-held: $held(Reg.muRefTag)
+//@ callsite (*Reg).{ManifestPut,TagDelete}
+//@   prop C10
+//@   name fallback-tag-write/update
+//@   in ~/scheme/reg
+//@   infunc \)\.referrer(Put|Delete)$
+//@   requires fallback-tag-lock-held: $held(Reg.muRefTag)
